@@ -1308,7 +1308,7 @@ class DocutilsRenderer(RendererProtocol):
 
         for key, value in data.items():
             if not isinstance(value, str | int | float | date | datetime):
-                value = json.dumps(value)
+                value = json.dumps(value, default=str)
             value = str(value)
             body = nodes.paragraph()
             body.source, body.line = self.document["source"], line
